@@ -8,6 +8,7 @@ mod hc_hostile;
 mod hc_script;
 mod tfrc;
 mod codec;
+mod hc_twin;
 mod alloc;
 mod alloc_run;
 
@@ -156,6 +157,19 @@ fn main() {
             }
             progress(&progress_path, "done");
             eprintln!("alloc: runs={} lines={}", runs, tr.lines);
+        }
+        "hc-twin" => {
+            let seed = geti(&m, "seed", 1);
+            let runs = geti(&m, "runs", 10);
+            let start = geti(&m, "start", 0);
+            let mut tr = Trace::create(&out);
+            let mut inj = 0;
+            for i in start..start + runs {
+                progress(&progress_path, &format!("{}", i));
+                inj += hc_twin::run_twin(&mut tr, i, mix(seed ^ 0x7717, i));
+            }
+            progress(&progress_path, "done");
+            eprintln!("hc-twin: runs={} injected={} lines={}", runs, inj, tr.lines);
         }
         "sess-random" => {
             let seed = geti(&m, "seed", 1);
